@@ -467,6 +467,59 @@ func (r *Runner) diagnoseNoLeader() string {
 			return "server-without-pre-vote-holds-a-higher-term-and-a-stale-log-and-deposes-every-leader"
 		}
 	}
+	// electability: can any live server collect a quorum of its own latest
+	// configuration, given every peer's log and every peer's own view of the
+	// membership? (raft refuses candidates that are not voters in the
+	// receiver's latest configuration, and candidates with a staler log)
+	type view struct {
+		voters map[string]bool
+		cfgIdx uint64
+	}
+	views := map[string]view{}
+	for _, id := range r.ids {
+		in := w.Servers[id].Inst
+		if in == nil || in.DeadLocked() {
+			continue
+		}
+		cfg, ci := sim.LatestCfgInDisk(in.DiskLocked(), false)
+		v := view{voters: map[string]bool{}, cfgIdx: ci}
+		for _, s := range cfg.Servers {
+			if s.Suffrage == raft.Voter {
+				v.voters[string(s.ID)] = true
+			}
+		}
+		views[id] = v
+	}
+	anyElectable, unrecognised := false, false
+	for c, cv := range views {
+		if !cv.voters[c] {
+			continue // does not campaign
+		}
+		support := 0
+		for v := range cv.voters {
+			pv, live := views[v]
+			if !live {
+				continue
+			}
+			lc, lv := last[c], last[v]
+			upToDate := lc.term > lv.term || (lc.term == lv.term && lc.idx >= lv.idx)
+			switch {
+			case v == c:
+				support++
+			case !upToDate:
+			case len(pv.voters) > 0 && !pv.voters[c]:
+				unrecognised = true
+			default:
+				support++
+			}
+		}
+		if support >= len(cv.voters)/2+1 {
+			anyElectable = true
+		}
+	}
+	if !anyElectable && unrecognised {
+		return "no-server-electable:a-needed-voter-does-not-recognise-the-candidate-as-voter-in-its-own-older-configuration"
+	}
 	holders, stuck := 0, 0
 	for _, id := range r.ids {
 		in := w.Servers[id].Inst
